@@ -473,7 +473,7 @@ func (v *Value) IterateOrder(fn func(idx, count int, key, value *Value) bool, em
 		keyLen := len(keys)
 		for idx, key := range keys {
 			value := v.getResolvedValue().MapIndex(key)
-			if !fn(idx, keyLen, &Value{val: resolveInterface(key)}, &Value{val: resolveInterface(value)}) {
+			if !fn(idx, keyLen, valueOfItem(key), valueOfItem(value)) {
 				return
 			}
 		}
@@ -486,7 +486,7 @@ func (v *Value) IterateOrder(fn func(idx, count int, key, value *Value) bool, em
 
 		itemCount := v.getResolvedValue().Len()
 		for i := 0; i < itemCount; i++ {
-			items = append(items, &Value{val: resolveInterface(v.getResolvedValue().Index(i))})
+			items = append(items, valueOfItem(v.getResolvedValue().Index(i)))
 		}
 
 		if sorted {
@@ -544,6 +544,21 @@ func (v *Value) IterateOrder(fn func(idx, count int, key, value *Value) bool, em
 		logf("Value.Iterate() not available for type: %s\n", v.getResolvedValue().Kind().String())
 	}
 	empty()
+}
+
+// valueOfItem is the Value a loop variable is bound to for an item of a list or map. An
+// item that is a *Value itself (a []*Value, a *Value in a []any) is taken as it is - like
+// a name that resolves to one - and not wrapped a second time: the wrapper would be a
+// pointer to the engine's struct, on which no step, filter or test works.
+func valueOfItem(item reflect.Value) *Value {
+	item = resolveInterface(item)
+	if item.IsValid() && item.Type() == typeOfValuePtr {
+		if inner := item.Interface().(*Value); inner != nil {
+			return inner
+		}
+		return AsValue(nil)
+	}
+	return &Value{val: item}
 }
 
 // resolveInterface returns what an interface-kind value (an item of a []any, a key
